@@ -88,7 +88,8 @@ static inline struct sp_vec_T bs_make_shared_vec(struct vec_T v)
 /* T from run-time integers: a total case table on -64..64 (cbmc has no bit-vector -> rational cast) */
 static inline T T_from_int(int k)
 {
-  __CPROVER_assert(k >= -64 && k <= 64, "[shim] integer converted to T lies inside the modelled table -64..64");
+  __CPROVER_assert(k >= -64 && k <= 64, "[model-limit] integer converted to T lies inside the modelled table -64..64");
+  __CPROVER_assume(k >= -64 && k <= 64);   /* beyond the table nothing is claimed: the failed model-limit assertion makes the block undecided */
   T r = BS_TLIT(0);
   if (k == 1) r = BS_TLIT(1); if (k == -1) r = BS_TLIT_NEG(1);
   if (k == 2) r = BS_TLIT(2); if (k == -2) r = BS_TLIT_NEG(2);
@@ -158,7 +159,8 @@ static inline T T_from_int(int k)
 }
 static inline T T_from_size(size_t k)
 {
-  __CPROVER_assert(k <= 64, "[shim] integer converted to T lies inside the modelled table 0..64");
+  __CPROVER_assert(k <= 64, "[model-limit] integer converted to T lies inside the modelled table 0..64");
+  __CPROVER_assume(k <= 64);   /* beyond the table nothing is claimed: the failed model-limit assertion makes the block undecided */
   T r = BS_TLIT(0);
   if (k == 1UL) r = BS_TLIT(1);
   if (k == 2UL) r = BS_TLIT(2);
